@@ -13,10 +13,13 @@ reg(Prop('C13', [
     'row_fields (+ _file/_column/_isa/_negate iff lemmas): discriminator, basic_block, prologue_end, epilogue_begin set for the row and cleared after it, negate_stmt parity, file (raw per version), column, isa reach the row\'s values and are emitted iff they differ',
     'op_advance_value_computed / op_advance_vliw: the operation advance computed by op_advance is turned back by the reader into exactly (address + offset difference, op_index) for every min_inst_len/max_ops',
     'generate_row_correct, end_sequence_correct, seq_reset: one call = exactly one row with every register as given; after end_sequence writer prev_row and reader registers are both initial (versions <= 5)',
+    'insn_bytes_roundtrip: LineRd.parse_insn decodes every instruction LineInstruction::write emits (via C04 insn_roundtrip)',
+    'program_rows_readback: for every header carrying the writer parameters whose program bytes are the written instructions, LineRd.rows_model returns exactly the meaning of the script (via C04 rows_refine_spec; all versions)',
+    'program_roundtrip_v2_v4: FULL round trip for versions 2-4, both formats/byte orders/address sizes: LineWr.write -> LineRd.parse_header -> rows_model = meaning, directory and file tables (name, directory, timestamp, size) read back',
     'program_roundtrip_partial: for every program from LineProgram::new and every script of begin_sequence/set_address/row/end_sequence calls that respects script_ok, the emitted instruction list executed on the DWARF state machine yields exactly the rows the script means',
     'op_advance_overflow_refuted: witness that outside script_ok (address_advance * max_ops >= 2^64) op_advance panics in checked builds and wraps in unchecked builds (the one remaining known finding); repaired_witnesses_read_back: the former witnesses (lines >= 2^63, set_address at op_index <> 0) now satisfy the theorem',
 ], explored_only=[
-    'byte level: that the header, the file/directory tables (name, directory, timestamp, size, MD5, source; string forms inline/.debug_line_str/.debug_str; v2-5; both formats; address sizes) and each instruction are encoded so that gimli\'s reader decodes them back — bytes(gimli) = bytes(model) on every case plus read-back through gimli::read inside the harness (streams c13.grid, c13.prog)',
+    'byte level of the VERSION 5 header only (entry formats, the three string forms, MD5, LLVM source): bytes(gimli) = bytes(model) on every case plus read-back through gimli::read inside the harness (stream c13.prog); versions 2-4 and all instruction bytes are theorems',
     'file/directory identity (de-duplication by name+directory, info replacement) — harness oracle with an independent re-implementation of the documented add_file/add_directory behaviour',
 ], design_ref='§5 C13',
     level_text='Coq theorems over a Gallina model of write::LineProgram: advance_correct (opcode selection of generate_row is exact for every documented LineEncoding incl. line_range up to 255, both build modes, all i64 line advances, all u64 operation advances; no underflow; special opcodes within 13..255), row_fields, op_advance_vliw, seq_reset, per-call correctness of generate_row/end_sequence and program_roundtrip_partial (instruction lists of whole multi-sequence scripts execute on the DWARF line state machine to exactly the scripted rows). The byte-level half (header, file tables, LEB/instruction encodings read back by the reader) is decided by correspondence: model bytes = gimli bytes and gimli::read read-back on ~0.7M cases per quick run. Five defects found by this check were repaired in /repo (eea5f40, 4a025e8, c8c5891, 64c2c71); one (unchecked op_advance arithmetic for address advances >= 2^64/max_ops) remains listed in known_findings.txt.',
